@@ -157,7 +157,7 @@ theorem updatePointParams_ok {gs : List Group} (hM : Mand gs) (frames : List Fra
     have eD : gD = gP := by have := gpIdx_group hiD; rw [hG2] at this; cases this; rfl
     have eN : gN = gP := by have := gpIdx_group hiN; rw [hG2] at this; cases this; rfl
     rw [eL] at hiL; rw [eD] at hiD; rw [eN] at hiN
-    simp only [hiL, hiD, hiN, Res.andThen_ok]
+    simp only [hiL, Res.andThen_ok]
     refine ⟨_, rfl, ?_⟩
     have hM3 := Mand_modParam hM2 POINT LABELS gP iL (·.setStrs! (pointNames frames ol np)) hiL (setStrs!_name _) (keep_str _ _ mem_slots_PL _)
     have hiD3 : gpIdx (modParam (modParam g1 gP iU f2) gP iL (·.setStrs! (pointNames frames ol np))) POINT DESCRIPTIONS = .ok (gP, iD) := by
@@ -165,6 +165,7 @@ theorem updatePointParams_ok {gs : List Group} (hM : Mand gs) (frames : List Fra
     have hM4 := Mand_modParam hM3 POINT DESCRIPTIONS gP iD (·.setStrs! ((pointNames frames ol np).map fun _ => [])) hiD3 (setStrs!_name _) (keep_any _ _ mem_slots_PD _)
     have hiN4 : gpIdx (modParam (modParam (modParam g1 gP iU f2) gP iL (·.setStrs! (pointNames frames ol np))) gP iD (·.setStrs! ((pointNames frames ol np).map fun _ => []))) POINT UNITS = .ok (gP, iN) := by
       rw [gpIdx_modParam _ _ _ _ (setStrs!_name _), gpIdx_modParam _ _ _ _ (setStrs!_name _)]; exact hiN
+    simp only [modIfPresent, hiD3, hiN4]
     exact Mand_modParam hM4 POINT UNITS gP iN (·.setStrs! ((pointNames frames ol np).map fun _ => mm)) hiN4 (setStrs!_name _) (keep_any _ _ mem_slots_PN _)
   · exact ⟨g1, rfl, hM1⟩
 
@@ -201,10 +202,11 @@ theorem updateAnalogParams_ok {gs : List Group} (hM : Mand gs) (frames : List Fr
     have eL : gL = gA := by have := gpIdx_group hiL; rw [hG1] at this; cases this; rfl
     have eD : gD = gA := by have := gpIdx_group hiD; rw [hG1] at this; cases this; rfl
     rw [eL] at hiL; rw [eD] at hiD
-    simp only [hiL, hiD, Res.andThen_ok]
+    simp only [hiL, Res.andThen_ok]
     have hM2 := Mand_modParam hM1 ANALOG LABELS gA iL (·.setStrs! names) hiL (setStrs!_name _) (keep_str _ _ mem_slots_AL _)
     have hiD2 : gpIdx (modParam a1 gA iL (·.setStrs! names)) ANALOG DESCRIPTIONS = .ok (gA, iD) := by
       rw [gpIdx_modParam _ _ _ _ (setStrs!_name _)]; exact hiD
+    simp only [modIfPresent, hiD2]
     have hM3 := Mand_modParam hM2 ANALOG DESCRIPTIONS gA iD (·.setStrs! (names.map fun _ => [])) hiD2 (setStrs!_name _) (keep_any _ _ mem_slots_AD _)
     have hG3 : groupIdx (modParam (modParam a1 gA iL (·.setStrs! names)) gA iD (·.setStrs! (names.map fun _ => []))) ANALOG = .ok gA := by
       rw [groupIdx_modParam, groupIdx_modParam]; exact hG1
